@@ -43,4 +43,13 @@ Theorem C09_unique_bounded : forall l, (length (uniq [] l) <= length l)%nat.
 Proof. intros l. apply uniq_len. Qed.
 Example C09_replace_worst_case : length (replace_sub 4 [] [120;121]%N [97;98;99]%N) = (3 + 4 * 2)%nat.
 Proof. reflexivity. Qed.
-Print Assumptions C09_replace_bounded.
+(* the regex builtins too, for every pattern AST (over the reference engine of Regex.v): at most length + 1 matches, together no longer than the text; a plain replacement
+   grows the text by at most one replacement per match *)
+Require Import Regex RegexZero.
+Theorem C09_regex_find_bounded : forall k r s, (length (re_find k r s) <= S (length s))%nat /\ (length (concat (re_find k r s)) <= length s)%nat.
+Proof. intros k r s. split; [apply find_count_bound | apply find_total_length]. Qed.
+Theorem C09_regex_replace_bounded : forall k r s t limit, (length (re_replace k r s t limit) <= length s + S (length s) * length t)%nat.
+Proof. exact replace_plain_bounded. Qed.
+Example C09_regex_replace_worst_case : length (re_replace 1 (RStar (RChar 122)) [97;98;99]%N [120;121]%N 0) = (3 + 4 * 2)%nat.
+Proof. vm_compute. reflexivity. Qed.
+Print Assumptions C09_replace_bounded. Print Assumptions C09_regex_replace_bounded.
